@@ -13,6 +13,9 @@ def run(ctx, args):
     # ---- E3: all monotone submission sequences (exhaustive)
     ctx.tlc_mc(d, "MC_Work.tla", "MC_Work.cfg" if quick else "MC_Work_thorough.cfg", workers=8, timeout=3000)
     ctx.tlc_mc(d, "MC_Work.tla", "MC_Work_ReachGrow.cfg", workers=4, timeout=600, expect_violation="ReachGrow", count=False)
+    # concurrent chains: every interleaving of two scripts with conflicts (atomic optimistic transactions)
+    ctx.tlc_mc(d, "MC_WorkConc.tla", "MC_WorkConc.cfg", workers=4, timeout=600)
+    ctx.tlc_mc(d, "MC_WorkConc.tla", "MC_WorkConc_ReachEnd.cfg", workers=4, timeout=600, expect_violation="ReachEnd", count=False)
     ctx.exhaustive = True
     # ---- E1: every edge of every world -> walks on a real store
     edges = ctx.tlc_edges(d, "MC_Work.tla", "Gen_Work.cfg" if quick else "Gen_Work_thorough.cfg", timeout=3000)
@@ -39,14 +42,19 @@ def run(ctx, args):
     ctx.log("walks: %d covering %d edges in %d worlds, %d restarts" % (len(walks), len(edges), len(byworld), restarts))
     cases = os.path.join(ctx.scratch, "cases26.json")
     with open(cases, "w") as fh:
-        json.dump({"walks": walks}, fh)
+        json.dump({"walks": walks, "conc": 150 if quick else 2500}, fh)
     trace = os.path.join(ctx.scratch, "trace26.ndjson")
     ctx.go_harness("storage", "^TestVerifWork$", env={"VERIF_CASES": cases, "VERIF_TRACE": trace})
     events = read_ndjson(trace)
     traces = split_traces(events)
     ctx.log("harness done: %d lines" % len(events))
     subs = [e for e in events if e["ev"] == "Submit"]
-    ctx.evaluations = len(subs) + sum(1 for e in events if e["ev"] == "Restart")
+    conc = [e for e in events if e["ev"] == "Conc"]
+    ctx.evaluations = (len(subs) + sum(1 for e in events if e["ev"] == "Restart")
+                       + sum(sb["tries"] for e in conc for ch in e["chains"] for sb in ch["subs"]))
+    ctx.cov["concurrent_scenarios"] = len(conc)
+    ctx.cov["concurrent_submissions"] = sum(len(ch["subs"]) for e in conc for ch in e["chains"])
+    ctx.cov["transaction_conflicts_retried"] = sum(sb["tries"] - 1 for e in conc for ch in e["chains"] for sb in ch["subs"])
     ctx.distinct = len({json.dumps([[e.get("round"), e.get("credit"), e.get("snaps")] for e in t[1] if e["ev"] == "Submit"], sort_keys=True)
                         for t in traces if sum(1 for e in t[1] if e["ev"] == "Submit") >= 2})
     ctx.cov["restarts"] = sum(1 for e in events if e["ev"] == "Restart")
@@ -54,7 +62,9 @@ def run(ctx, args):
                                               if a["ev"] == "Submit" and b["ev"] == "Submit" and a["round"] == b["round"])
     ctx.rule = ("every edge of the exhaustive TLC state graph of MC_Work (all worlds: credit flag and day per round, signer table) "
                 "replayed on a real BadgerStore (WriteRoundWork, read back with ReadWorkOffset / stored checkpoint / ListNodeWorks), "
-                "seeded random walks, seeded store restarts and slice orders; distinct = distinct submission sequences with at "
+                "seeded random walks, seeded store restarts and slice orders; plus seeded concurrent scenarios (2-8 chains as goroutines "
+                "submitting monotone scripts with shared signers, retrying on transaction conflicts like kernel/mint.go, judged by "
+                "WorkInvAll on the counters read back); distinct = distinct submission sequences with at "
                 "least two submissions")
     ctx.samples = [[[e["ev"], e.get("round"), [s["id"] for s in e.get("snaps", [])], e.get("res")] for e in t[1]][:8]
                    for t in traces[:2] + traces[-2:]]
@@ -85,5 +95,6 @@ def run(ctx, args):
         "non-monotone submissions abort in the code and are outside the property",
         "every snapshot of the chain is signed by the chain's own node and all snapshots of a round share a day (C19); the credit "
         "flag is a constant of the round (kernel: day of the round = day of the next round's first snapshot)",
-        "Badger transactions are atomic and durable",
+        "Badger transactions are atomic and durable; goroutine schedules of the concurrent scenarios are sampled, not enumerated "
+        "(exhaustive only in MC_WorkConc)",
     ]
